@@ -99,12 +99,23 @@ class RunSpec(Spec):
     def profile(self, rng, idx, tier):
         return dict(self.base_profile)
 
+    soak_every = None  # thorough tier: every n-th case is a long run (30-80 metaepochs, churning stop conditions)
+
     def make_case(self, seed, idx, tier):
         rng = gen.case_rng(self.prop, seed, idx)
         prof = self.profile(rng, idx, tier)
         if prof.get("kind") == "minimize":
             return gen.gen_minimize_case(rng, prof)
-        return gen.gen_tree_case(rng, prof)
+        soak = tier == "thorough" and self.soak_every and idx % self.soak_every == self.soak_every - 1
+        if soak:
+            prof = dict(prof)
+            prof.update({"gsc": "melimit", "max_pop": 10, "max_gens": 2, "lscs": ["user", "melimit", "user", "dontstop"], "dim": (2, 2)})
+            prof.pop("gscs", None)
+        d = gen.gen_tree_case(rng, prof)
+        if soak:
+            d["gsc"] = {"k": "melimit", "n": rng.randint(30, 80)}
+            d["soak"] = True
+        return d
 
     def run_case(self, desc):
         from . import harness
@@ -394,6 +405,7 @@ class C05(RunSpec):
 @register
 class C06(RunSpec):
     prop = "C06"
+    soak_every = 25
     rule = (
         "seeded random tree configurations over every local stop condition (incl. user-defined and DontRun), CMA-ES leaves "
         "driven to internal termination; distinct non-trivial = distinct (deme class, deactivation cause)"
@@ -438,6 +450,7 @@ class C06(RunSpec):
 @register
 class C07(RunSpec):
     prop = "C07"
+    soak_every = 25
     rule = (
         "seeded random tree configurations of 1-3 levels incl. the custom deme class and user-composed mechanisms; "
         "distinct non-trivial = distinct tree shapes (multiset of (level, parent id, engine)) observed at boundaries"
@@ -468,6 +481,7 @@ class C07(RunSpec):
 @register
 class C08(RunSpec):
     prop = "C08"
+    soak_every = 25
     rule = (
         "seeded random tree configurations with level limits 1-4, several parents and several candidates per parent, LSCs "
         "that free slots; distinct non-trivial = distinct (active census before the round, L, candidates offered) at which a round had to cut"
@@ -640,6 +654,7 @@ class C12(RunSpec):
 @register
 class C18(RunSpec):
     prop = "C18"
+    soak_every = 25
     rule = (
         "seeded random 2- and 3-level tree configurations with hibernation on (and off as control), both mechanisms, level limits "
         "that fill up and LSCs that free slots; distinct non-trivial = distinct (height, mechanism, engine of the sleeper) with >=1 sleep->wake cycle"
